@@ -54,7 +54,7 @@ func loadFindings() []Finding {
 			rest := l[i+11:]
 			j := strings.Index(rest, " class=\"")
 			if j < 0 {
-				j = strings.Index(rest, " :: ")
+				j = strings.Index(rest, " -- ")
 			}
 			if j < 0 {
 				j = len(rest)
@@ -69,7 +69,7 @@ func loadFindings() []Finding {
 					f.Text = strings.TrimSpace(rest[k+1:])
 				}
 			} else {
-				f.Text = strings.TrimSpace(strings.TrimPrefix(rest, " :: "))
+				f.Text = strings.TrimSpace(strings.TrimPrefix(rest, " -- "))
 			}
 		}
 		out = append(out, f)
